@@ -52,11 +52,8 @@ def main():
     res["applies"] = r.returncode == 0
     if r.returncode == 0:
         t = time.time()
-        b = sh("cargo build --offline --workspace --exclude dora-sema-fuzzer --exclude dora-token-fuzzer 2>&1 | tail -3", cwd=wt)
-        res["builds"] = b.returncode == 0 and "error" not in b.stdout
-        res["build_s"] = round(time.time() - t)
-        t = time.time()
-        n = sh("cargo nextest run --workspace --no-fail-fast --offline --test-threads 6 2>&1 | tail -6", cwd=wt)
+        n = sh("cargo nextest run --workspace --no-fail-fast --offline --test-threads 8 2>&1 | tail -6", cwd=wt)
+        res["builds"] = "error: could not compile" not in n.stdout
         m = re.search(r"(\d+) tests run: (\d+) passed(?: \((\d+) \w+\))?(?:, (\d+) failed)?", n.stdout)
         res["suite"] = m.group(0) if m else n.stdout[-300:]
         res["suite_s"] = round(time.time() - t)
